@@ -7,4 +7,7 @@ sys.path.insert(0, os.path.dirname(os.path.abspath(__file__)))
 from simcheck.cli import main  # noqa: E402
 
 if __name__ == '__main__':
+    import faulthandler
+    import signal
+    faulthandler.register(signal.SIGUSR1, all_threads=True)     # kill -USR1 <pid> dumps all stacks
     sys.exit(main())
